@@ -163,12 +163,29 @@ func runScenario(sc *scenario, seed uint64, res *hx.Result, em *emitter, allPath
 		}
 	}
 	divergent, why := divergentChannelChoice(runs[0][0].Assets, sc)
+	countryDiverges := false
 	mask := func(s string) string { return s }
 	if divergent {
 		mask = telChannelMask(sc)
 		res.Fail("leak:contact.channel:tel-channel-chosen-by-number-prefix", sc,
 			"with >=2 tel send channels ChannelAssets.GetForURN picks by digit-prefix overlap with the contact's number: "+why)
 		res.Dist("scenario=divergent-channel")
+		// second sink of the same root cause: the merged environment takes its default country from the chosen channel
+		for pol := 0; pol < 2 && !countryDiverges; pol++ {
+			for i := 0; i < len(runs[pol][0].Obs) && i < len(runs[pol][1].Obs) && !countryDiverges; i++ {
+				sa, sb := runs[pol][0].Obs[i].Snaps, runs[pol][1].Obs[i].Snaps
+				for k := 0; k < len(sa) && k < len(sb); k++ {
+					if runs[pol][0].Obs[i].Redact && sa[k].Country != sb[k].Country {
+						countryDiverges = true
+						res.Fail("leak:contact.channel:tel-channel-chosen-by-number-prefix", sc, fmt.Sprintf(
+							"%s: the chosen channels have different countries, so the merged environment's default country is %q vs %q for the twins (seen by has_phone, number parsing, locale)",
+							runs[pol][0].Obs[i].Point, sa[k].Country, sb[k].Country))
+						res.Dist("scenario=divergent-channel-country")
+						break
+					}
+				}
+			}
+		}
 	}
 
 	// --- the policy in force is the one of the environment the caller supplied last ---
@@ -266,6 +283,9 @@ func runScenario(sc *scenario, seed uint64, res *hx.Result, em *emitter, allPath
 			res.OracleChecks++
 			oc.templates++
 			ta, tb := oa.Tpls[j], ob.Tpls[j]
+			if countryDiverges && isCountryTemplate(ta.Tpl) {
+				continue // part of the listed finding (environment country follows the chosen channel)
+			}
 			if mask(ta.Out) != mask(tb.Out) || ta.OK != tb.OK {
 				res.Fail("leak:template:"+tplClass(ta.Tpl), sc, fmt.Sprintf("%s: template %s gives %q vs %q for URN twins under the policy", oa.Point, ta.Tpl, clip(ta.Out), clip(tb.Out)))
 			}
@@ -370,6 +390,15 @@ func runScenario(sc *scenario, seed uint64, res *hx.Result, em *emitter, allPath
 		}
 	}
 	return oc
+}
+
+func isCountryTemplate(t string) bool {
+	for _, c := range countryTemplates {
+		if c == t {
+			return true
+		}
+	}
+	return false
 }
 
 func tplClass(t string) string {
